@@ -757,6 +757,11 @@ Proof.
   - cbn [snd g_cells g_seen]. now rewrite nth_skipn.
 Qed.
 
+Lemma nth_firstn_lt {A} (d : A) : forall n i l, (i < n)%nat -> nth i (firstn n l) d = nth i l d.
+Proof.
+  induction n; intros i l H; [lia|]. destruct l; [now destruct i|]. destruct i; [reflexivity|].
+  cbn [firstn nth]. apply IHn. lia.
+Qed.
 (* what is emitted is the view of the first n groups *)
 Lemma emit_rows_nth {C X} (f : C -> X) nul d dx valid (cells : list C) i :
   (i < length cells)%nat ->
